@@ -4,14 +4,14 @@
   reader ignores applications of non-specified directives.  Proved here for the readers themselves; the lift through the
   environment (`Env.of` stores the definitions; default values are coerced against it) is done in `C12_custom_build.lean`
   for every document the printer denotes (`print_build_roundtrip_custom`).  For ARBITRARY documents (extensions, several
-  blocks) the statement `BuildIgnoresCustomStatement` stays open; it is EVALUATED by the driver on every printed document
-  with applied directives (op `printTA`, key `buildErased`).
+  blocks) the statement `BuildIgnoresCustomStatement` is PROVED in `Props/C12_erase_all.lean` (`build_ignores_custom`); it
+  is also evaluated by the driver on every printed document with applied directives (op `printTA`, key `buildErased`).
 -/
 import PyGqlModel.SdlPrintTA
 namespace PyGql.Props.C12
 open PyGql PyGql.Sdl PyGql.SdlPrintTA
 
-/-- OPEN: the builder ignores applications of non-specified directives (evaluated on every run, not proved) -/
+/-- the builder ignores applications of non-specified directives (proved: `build_ignores_custom`, `Props/C12_erase_all.lean`) -/
 def BuildIgnoresCustomStatement : Prop := ∀ doc : Doc, build doc = build (doc.map eraseCustom)
 
 private theorem find?_filter_of_imp {α} (p q : α → Bool) (l : List α) (h : ∀ x, p x = true → q x = true) :
